@@ -5,6 +5,7 @@ package traefikoidc_test
 // (a plain map with last-write / expiry / last-use bookkeeping) judge C12 and C13 directly.
 
 import (
+	"math"
 	"strings"
 	"fmt"
 	"sort"
@@ -115,6 +116,18 @@ func (r *cacheRun) obsState(o M) M {
 	return o
 }
 
+// satAdd: now + ttl without wrapping (an expiry beyond the representable range is "never" / "long ago")
+func satAdd(a, b int64) int64 {
+	c := a + b
+	if b > 0 && c < a {
+		return math.MaxInt64
+	}
+	if b < 0 && c > a {
+		return math.MinInt64
+	}
+	return c
+}
+
 func (r *cacheRun) expiredRef(e *refEntry, now int64) bool { return now >= e.exp }
 
 func (r *cacheRun) set(k string, v int, ttl time.Duration) {
@@ -212,7 +225,7 @@ func (r *cacheRun) set(k string, v int, ttl time.Duration) {
 			}
 		}
 	}
-	r.ref[k] = &refEntry{v: v, exp: now + int64(ttl), lastUse: r.opIdx, stored: r.opIdx}
+	r.ref[k] = &refEntry{v: v, exp: satAdd(now, int64(ttl)), lastUse: r.opIdx, stored: r.opIdx}
 }
 
 // lostLive judges the loss of an unexpired, undeleted entry: allowed only if at least cap distinct other keys were used since its last use
@@ -318,7 +331,9 @@ func (r *cacheRun) clean() {
 
 func (r *cacheRun) close() { r.c.Close() }
 
-var ttlChoices = []time.Duration{-5, 0, 1, 2, 50, time.Second, 30 * time.Second, 10 * time.Minute, time.Hour}
+// lifetimes: negative, zero, a few nanoseconds, ordinary, and the far end of the range (centuries, the largest Duration)
+var ttlChoices = []time.Duration{-5, 0, 1, 2, 50, time.Second, 30 * time.Second, 10 * time.Minute, time.Hour,
+	240 * 365 * 24 * time.Hour, time.Duration(math.MaxInt64), time.Duration(math.MaxInt64 / 2), time.Duration(math.MinInt64)}
 
 func familyCache(t *testing.T) {
 	rng := T.rng
@@ -574,6 +589,43 @@ func cacheConcurrent() {
 					}
 				}
 			}(w)
+		}
+		// lookups count as use, also when they overlap: fill a small cache, look half of its keys up from as many goroutines at the
+		// same moment, then (alone) insert as many new keys as were NOT looked up — exactly those must be the ones evicted
+		if hooksOn && cap == 8 {
+			for rep := 0; rep < T.size(150, 1000); rep++ {
+				cc := newCacheCap(8)
+				for i := 0; i < 8; i++ {
+					cc.Set(fmt.Sprintf("f%d", i), i, time.Hour)
+				}
+				start := make(chan struct{})
+				var lw sync.WaitGroup
+				for g := 0; g < 4; g++ {
+					lw.Add(1)
+					go func(g int) {
+						defer lw.Done()
+						<-start
+						cc.Get(fmt.Sprintf("f%d", g))
+					}(g)
+				}
+				close(start)
+				lw.Wait()
+				for i := 0; i < 4; i++ {
+					cc.Set(fmt.Sprintf("n%d", i), i, time.Hour)
+				}
+				lost := []string{}
+				for g := 0; g < 4; g++ {
+					if _, ok := cc.Get(fmt.Sprintf("f%d", g)); !ok {
+						lost = append(lost, fmt.Sprintf("f%d", g))
+					}
+				}
+				cc.Close()
+				if len(lost) > 0 {
+					T.oracle("C13", "an entry looked up (concurrently with other lookups) was evicted although fewer than capacity other keys were used since", M{"lost": lost, "cap": 8, "others_used_since": 7}, M{"family": "cache", "concurrent": true, "scenario": "overlapping lookups then overflow"})
+					break
+				}
+			}
+			T.stat("cache.concurrent.lookup-counts-as-use")
 		}
 		// owners and cleaners (rounds in which the key universe fits the capacity, so nothing may ever be evicted): each owner
 		// re-stores its own key — first with an already elapsed lifetime, then with a long one — and must read it back, while
